@@ -75,6 +75,12 @@ def check(ctx):
                 name, d2 = variants(rng, d, fname)
                 while any(name == n for n, _ in docset): name = "x" + name
                 docset.append((name, d2))
+            if ci == 3:
+                # two documents that declare the SAME model, attribute for attribute (one namespace exported as two part files): listed once per document
+                import random as _r
+                da_ = docs.simple_doc(_r.Random(31), "urn:verif:parts", n_nodes=2); db_ = docs.simple_doc(_r.Random(32), "urn:verif:parts", n_nodes=3)
+                db_["models"] = copy.deepcopy(da_["models"])
+                docset += [("yy_part_a.xml", da_), ("yy_part_b.xml", db_)]
             if ci == 2:
                 # a header that is long in bytes: a namespace table of several thousand entries stands in front of the Models element (about 400 KiB)
                 import random as _r
